@@ -1784,3 +1784,288 @@ Lemma example_reassemble :
      [mk_data_frag 1 1 p21 8 2; mk_data_frag 1 2 p29 8 0; mk_data_frag 1 1 p21 8 0; mk_data_frag 1 1 p21 8 2;
       mk_data_frag 1 1 p21 8 1] []) 1 = Ok (Some p21, [mk_data_frag 1 2 p29 8 0]).
 Proof. vm_compute. reflexivity. Qed.
+
+(* ------------------------------------------------------------ no panic on the writer's own traffic *)
+
+(* at rest no sample's fragment set is complete in the buffer (a complete set is consumed at once) *)
+Definition quiet (f : Z) (ch : list (Z * bytes)) (buf : list frag) : Prop :=
+  forall sn p, lookup sn ch = Some p -> 1 <= div_ceil (blen p) f -> ~ complete f 1 buf sn p.
+
+Definition small_history (f : Z) (ch : list (Z * bytes)) : Prop :=
+  forall sn p, lookup sn ch = Some p -> div_ceil (blen p) f <= 256.
+
+Lemma complete_incl : forall f rid b1 b2 sn p, (forall x, In x b1 -> In x b2) ->
+  complete f rid b1 sn p -> complete f rid b2 sn p.
+Proof. intros f rid b1 b2 sn p H Hc i Hi. apply H. apply Hc. exact Hi. Qed.
+
+Lemma quiet_incl : forall f ch b1 b2, (forall x, In x b1 -> In x b2) -> quiet f ch b2 -> quiet f ch b1.
+Proof.
+  intros f ch b1 b2 H Hq sn p Hl Hn Hc. apply (Hq sn p Hl Hn). apply (complete_incl f 1 b1 b2 sn p H Hc).
+Qed.
+
+Lemma quiet_mono : forall f ch e buf, frag_size_ok f -> history_ok (ch ++ e) ->
+  (forall x, In x buf -> genuine f 1 ch x) -> quiet f ch buf -> quiet f (ch ++ e) buf.
+Proof.
+  intros f ch e buf Hf Hh Hg Hq sn p Hl Hn Hc. rewrite lookup_app in Hl.
+  destruct (lookup sn ch) as [q|] eqn:E.
+  - inversion Hl; subst q. apply (Hq sn p E Hn Hc).
+  - (* a sample the buffer cannot know yet *)
+    specialize (Hc 0 ltac:(lia)). destruct (Hg _ Hc) as (q & i & Hlq & _).
+    rewrite mk_data_frag_sn in Hlq. congruence.
+Qed.
+
+Lemma r_on_data_buf_incl : forall r sn p x, In x (r_buf (r_on_data r sn p)) -> In x (r_buf r).
+Proof.
+  intros r sn p x. unfold r_on_data.
+  destruct (r_rel r); [destruct (sn =? _)|destruct (_ <=? sn)];
+    cbn [r_set received_change_set r_buf]; try tauto; intros H; apply filter_In in H; tauto.
+Qed.
+
+Lemma r_on_frag_quiet : forall f ch r fr r', frag_size_ok f -> history_ok ch ->
+  rinv f ch r -> genuine f 1 ch fr -> quiet f ch (r_buf r) -> r_on_frag r fr = Ok r' ->
+  quiet f ch (r_buf r').
+Proof.
+  intros f ch r fr r' Hf Hch Hr Hg Hq H.
+  pose proof Hg as (q & i0 & Hl & Hi0 & Hfr).
+  pose proof (r_on_frag_cases f ch r fr q Hf Hch Hr Hg Hl) as (Hsub & Hnd & Hgen & Hcase).
+  set (buf1 := frag_buf1 r fr) in *.
+  destruct Hcase as [[Hc E]|[Hc E]]; rewrite E in H; inversion H; subst r'.
+  - (* the set of fr_sn fr is consumed; everything else is a subset of what was quiet *)
+    apply (quiet_incl f ch _ (filter (fun x => negb (has_sn (fr_sn fr) x)) buf1)).
+    { intros x Hx. apply r_on_data_buf_incl in Hx. cbn [r_set r_buf] in Hx. exact Hx. }
+    intros sn p Hlp Hn Hcp.
+    destruct (Z.eq_dec sn (fr_sn fr)) as [Es|Es].
+    + subst sn. specialize (Hcp 0 ltac:(lia)). apply filter_In in Hcp as [_ Hcp].
+      unfold has_sn in Hcp. rewrite mk_data_frag_sn, Z.eqb_refl in Hcp. discriminate.
+    + apply (Hq sn p Hlp Hn). intros i Hi. specialize (Hcp i Hi). apply filter_In in Hcp as [Hcp _].
+      destruct (Hsub _ Hcp) as [Hin|Heq]; [exact Hin|].
+      exfalso. apply Es. rewrite <- Heq. symmetry. apply mk_data_frag_sn.
+  - cbn [r_set r_buf]. intros sn p Hlp Hn Hcp.
+    destruct (Z.eq_dec sn (fr_sn fr)) as [Es|Es].
+    + subst sn. assert (p = q) by congruence. subst p. exact (Hc Hcp).
+    + apply (Hq sn p Hlp Hn). intros i Hi. specialize (Hcp i Hi).
+      destruct (Hsub _ Hcp) as [Hin|Heq]; [exact Hin|].
+      exfalso. apply Es. rewrite <- Heq. symmetry. apply mk_data_frag_sn.
+Qed.
+
+Lemma r_deliver_all_quiet : forall f ch ws r r', frag_size_ok f -> history_ok ch ->
+  rinv f ch r -> Forall (wire_genuine f ch) ws -> quiet f ch (r_buf r) -> r_deliver_all r ws = Ok r' ->
+  quiet f ch (r_buf r').
+Proof.
+  intros f ch ws. induction ws as [|w ws IH]; intros r r' Hf Hch Hr Hg Hq H; cbn [r_deliver_all] in H.
+  - inversion H; subst. exact Hq.
+  - inversion Hg as [|? ? Hg1 Hg2]; subst.
+    destruct (r_deliver_inv f ch r w Hf Hch Hr Hg1) as (r1 & E & Hr1). rewrite E in H. cbn [bind] in H.
+    apply (IH r1 r' Hf Hch Hr1 Hg2); [|exact H].
+    destruct w as [rid s q|fr|s]; cbn [r_deliver wire_genuine] in *.
+    + inversion E; subst. apply (quiet_incl f ch _ (r_buf r)); [apply r_on_data_buf_incl|exact Hq].
+    + apply (r_on_frag_quiet f ch r fr r1); assumption.
+    + inversion E; subst. exact Hq.
+Qed.
+
+Lemma gen_nackfrag_total : forall f ch r, frag_size_ok f -> history_ok ch -> small_history f ch ->
+  rinv f ch r -> quiet f ch (r_buf r) -> exists x, gen_nackfrag r = Ok x.
+Proof.
+  intros f ch r Hf Hch Hsm Hr Hq. unfold gen_nackfrag.
+  destruct (find _ (missing256 r)) as [s|] eqn:Es; [|eexists; reflexivity].
+  apply find_some in Es as [_ Hex]. apply existsb_exists in Hex as (x & Hx & Hsx).
+  destruct (find (has_sn s) (r_buf r)) as [fr|] eqn:Efr.
+  2:{ pose proof (find_none _ _ Efr x Hx). congruence. }
+  apply find_some in Efr as [Hfr Hsfr]. unfold has_sn in Hsfr. apply Z.eqb_eq in Hsfr.
+  destruct Hr as [R1 R2 R3 R4].
+  destruct (R2 fr Hfr) as (p & i & Hl & Hi & Hfe). rewrite Hsfr in *.
+  pose proof (gfrag_fields f 1 s p Hf (Hch _ _ Hl) i Hi) as (_ & _ & _ & _ & Hfs & Hds & _).
+  unfold gfrag in *. rewrite <- Hfe in Hfs, Hds. rewrite Hfs, Hds.
+  destruct (Z.eqb_spec f 0) as [E0|E0]; [destruct Hf; lia|].
+  set (n := div_ceil (blen p) f).
+  pose proof (n_bounds f p Hf (Hch _ _ Hl)) as Hn. fold n in Hn.
+  set (miss := filter _ _).
+  assert (Hmiss_in : forall k, In k miss -> 1 <= k <= n).
+  { intros k Hk. unfold miss in Hk. apply filter_In in Hk as [Hk _]. apply zrange_in in Hk. lia. }
+  destruct miss as [|b t] eqn:Em.
+  - (* nothing missing would mean a complete set at rest *)
+    exfalso. apply (Hq s p Hl ltac:(fold n; lia)). intros j Hj.
+    assert (Hnot : ~ In (j + 1) miss) by (rewrite Em; intros []).
+    unfold miss in Hnot. rewrite filter_In in Hnot.
+    destruct (existsb (is_frag s (j + 1)) (r_buf r)) eqn:Eex.
+    + apply existsb_exists in Eex as (y & Hy & Hyp).
+      destruct (buf_elem_start f 1 ch Hf Hch (r_buf r) R2 s p Hl y (j + 1) Hy Hyp) as [_ Hyeq].
+      replace (j + 1 - 1) with j in Hyeq by lia. change (In (gfrag f 1 s p j) (r_buf r)). rewrite <- Hyeq. exact Hy.
+    + exfalso. apply Hnot. split; [apply zrange_in; fold n in Hj; lia|reflexivity].
+  - assert (Hb : 1 <= b <= n) by (apply Hmiss_in; left; reflexivity).
+    replace (existsb (fun n0 => 256 <=? n0 - b) (b :: t)) with false; [eexists; reflexivity|].
+    symmetry. apply not_true_is_false. intros Hex2. apply existsb_exists in Hex2 as (k & Hk & Hkb).
+    apply Z.leb_le in Hkb. pose proof (Hmiss_in k Hk). pose proof (Hsm s p Hl). fold n in H0. lia.
+Qed.
+
+Record pinv (s : sys) : Prop := mkpinv {
+  pi_s : sinv s;
+  pi_quiet : quiet (w_f (s_w s)) (w_changes (s_w s)) (r_buf (s_r s));
+  pi_small : small_history (w_f (s_w s)) (w_changes (s_w s))
+}.
+
+Lemma ack_resp_total : forall w set, w_f w <> 0 -> exists ws, ack_resp w set = Ok ws.
+Proof.
+  intros w set Hf. induction set as [|sn t [ws IH]]; cbn [ack_resp]; [eexists; reflexivity|].
+  rewrite IH. destruct (lookup sn (w_changes w)) as [p|]; [destruct (0 <? sn)|]; cbn [bind];
+    try (eexists; reflexivity).
+  destruct (Z.eqb_spec (w_f w) 0); [contradiction|]. cbn [bind]. eexists; reflexivity.
+Qed.
+
+Lemma w_on_nack_frag_total : forall w count sn base set, w_f w <> 0 ->
+  exists w' ws, w_on_nack_frag w count sn base set = Ok (w', ws).
+Proof.
+  intros w count sn base set Hf. unfold w_on_nack_frag.
+  destruct (w_rel w && _); [|eexists; eexists; reflexivity].
+  destruct (lookup sn (w_changes w)); [|eexists; eexists; reflexivity].
+  destruct (Z.eqb_spec (w_f w) 0); [contradiction|]. eexists; eexists; reflexivity.
+Qed.
+
+Lemma w_on_acknack_total : forall w count base set, w_f w <> 0 ->
+  exists w' ws, w_on_acknack w count base set = Ok (w', ws).
+Proof.
+  intros w count base set Hf. unfold w_on_acknack.
+  destruct (w_rel w && _); [|eexists; eexists; reflexivity].
+  destruct (ack_resp_total w set Hf) as [ws E]. rewrite E. cbn [bind]. eexists; eexists; reflexivity.
+Qed.
+
+Lemma respond_total : forall s x, pinv s ->
+  (exists w' ws, x = Ok (w', ws) /\ w_f w' = w_f (s_w s) /\ w_changes w' = w_changes (s_w s) /\
+                 Forall (wire_genuine (w_f (s_w s)) (w_changes (s_w s))) ws) ->
+  exists s' o, respond s x = Ok (s', o) /\ pinv s'.
+Proof.
+  intros s x [[Hf Hh Hr Hp] Hq Hsm] (w' & ws & -> & E1 & E2 & Hg).
+  unfold respond. cbn [bind fst snd].
+  destruct (r_deliver_all_inv _ _ ws (s_r s) Hf Hh Hr Hg) as (r1 & E & Hr1). rewrite E. cbn [bind].
+  eexists. eexists. split; [reflexivity|].
+  constructor; cbn [s_w s_r s_reply]; rewrite ?E1, ?E2; try assumption.
+  - constructor; cbn [s_w s_r s_reply]; rewrite ?E1, ?E2; assumption.
+  - apply (r_deliver_all_quiet _ _ ws (s_r s) r1 Hf Hh Hr Hg Hq E).
+Qed.
+
+Lemma step_total : forall s o, pinv s -> op_ok o -> small_op (w_f (s_w s)) o ->
+  exists s' b, step s o = Ok (s', b) /\ pinv s' /\ w_f (s_w s') = w_f (s_w s).
+Proof.
+  intros s o Hpi Hop Hso. pose proof Hpi as [Hs Hq Hsm]. pose proof Hs as [Hf Hh Hr Hp].
+  assert (Hf0 : w_f (s_w s) <> 0) by (destruct Hf; lia).
+  assert (Hres : forall x, (exists s' b, x = Ok (s', b) /\ pinv s') -> step s o = x ->
+                 exists s' b, step s o = Ok (s', b) /\ pinv s' /\ w_f (s_w s') = w_f (s_w s)).
+  { intros x (s' & b & -> & Hp') E. exists s', b. split; [exact E|]. split; [exact Hp'|]. apply (step_wf s o s' b E). }
+  destruct o as [p|sn idx which| fr |first last count final| |count sn base set| ]; cbn [op_ok small_op] in *.
+  - (* write *)
+    apply (Hres (step s (OWrite p))); [|reflexivity]. cbn [step]. unfold w_write, send_change.
+    destruct (Z.eqb_spec (w_f (s_w s)) 0); [contradiction|].
+    destruct (1 <? div_ceil (blen p) (w_f (s_w s))); cbn [bind]; destruct (2 <=? w_nreaders (s_w s)); cbn [bind fst snd].
+    all: eexists; eexists; split; [reflexivity|].
+    all: assert (Hh' : history_ok (w_changes (s_w s) ++ [(next_sn (s_w s), p)])) by (apply history_ok_app; assumption).
+    all: constructor; cbn [s_w s_r s_reply set_changes w_f w_changes].
+    all: try (constructor; cbn [s_w s_r s_reply set_changes w_f w_changes]; try assumption; apply rinv_mono; exact Hr).
+    all: try (apply quiet_mono; [exact Hf|exact Hh'|apply Hr|exact Hq]).
+    all: intros sn q Hl; rewrite lookup_app in Hl; destruct (lookup sn (w_changes (s_w s))) eqn:El;
+      [inversion Hl; subst; apply (Hsm sn q El)|
+       cbn [lookup] in Hl; destruct (next_sn (s_w s) =? sn); [inversion Hl; subst; exact Hso|discriminate]].
+  - (* deliver *)
+    subst which. apply (Hres (step s (ODeliver sn idx 1))); [|reflexivity]. cbn [step].
+    destruct (datagram_of (s_w s) sn idx 1) as [w|] eqn:E.
+    + apply datagram_of_spec in E.
+      destruct (r_deliver_inv _ _ (s_r s) w Hf Hh Hr E) as (r1 & E1 & Hr1). rewrite E1. cbn [bind].
+      eexists. eexists. split; [reflexivity|]. constructor; cbn [s_w s_r s_reply]; try assumption.
+      * constructor; assumption.
+      * apply (r_deliver_all_quiet _ _ [w] (s_r s) r1 Hf Hh Hr ltac:(constructor; [exact E|constructor]) Hq).
+        cbn [r_deliver_all]. rewrite E1. reflexivity.
+    + eexists. eexists. split; [reflexivity|exact Hpi].
+  - destruct Hop.
+  - (* heartbeat *)
+    apply (Hres (step s (OHb first last count final))); [|reflexivity]. cbn [step].
+    assert (Hhb : exists r' x, r_on_heartbeat (s_r s) first last count final = Ok (r', x)).
+    { unfold r_on_heartbeat. destruct (r_hbcount (s_r s) <? count); [|eexists; eexists; reflexivity].
+      unfold r_write_message. cbn [r_must]. destruct (negb final || _); [|eexists; eexists; reflexivity].
+      match goal with |- context [gen_nackfrag ?R] =>
+        destruct (gen_nackfrag_total (w_f (s_w s)) (w_changes (s_w s)) R Hf Hh Hsm) as [x E] end.
+      - destruct Hr as [R1 R2 R3 R4]. constructor; cbn [r_buf r_changes r_highest]; assumption.
+      - cbn [r_buf]. exact Hq.
+      - rewrite E. cbn [bind]. eexists; eexists; reflexivity. }
+    destruct Hhb as (r' & x & E). rewrite E. cbn [bind fst snd].
+    destruct (r_on_heartbeat_spec _ _ _ _ _ _ _ E) as (E1 & E2 & E3 & _ & _ & Hnf).
+    eexists. eexists. split; [reflexivity|]. constructor; cbn [s_w s_r s_reply]; try assumption.
+    + constructor; cbn [s_w s_r s_reply]; try assumption.
+      * destruct Hr as [R1 R2 R3 R4]. constructor; rewrite ?E1, ?E2, ?E3; assumption.
+      * destruct x as [[a [nf|]]|]; cbn [reply_ok]; try exact I; [|exact Hp].
+        destruct (Hnf a nf eq_refl) as (? & ? & _). auto.
+    + rewrite E1. exact Hq.
+  - (* reader's NACK_FRAG *)
+    apply (Hres (step s ONackFrag)); [|reflexivity]. cbn [step].
+    destruct (s_reply s) as [[a [nf|]]|] eqn:Er.
+    + apply respond_total; [exact Hpi|].
+      destruct (w_on_nack_frag_total (s_w s) (n_count nf) (n_sn nf) (n_base nf) (n_set nf) Hf0) as (w' & ws & E).
+      exists w', ws. split; [exact E|]. destruct (w_on_nack_frag_spec _ _ _ _ _ _ _ E) as (E1 & E2 & Hg).
+      cbn [reply_ok] in Hp. repeat split; try assumption. apply Hg; tauto.
+    + apply respond_total; [exact Hpi|]. eexists; eexists. repeat split; constructor.
+    + apply respond_total; [exact Hpi|]. eexists; eexists. repeat split; constructor.
+  - (* forged *)
+    apply (Hres (step s (OForged count sn base set))); [|reflexivity]. cbn [step].
+    apply respond_total; [exact Hpi|].
+    destruct (w_on_nack_frag_total (s_w s) count sn base set Hf0) as (w' & ws & E).
+    exists w', ws. split; [exact E|]. destruct (w_on_nack_frag_spec _ _ _ _ _ _ _ E) as (E1 & E2 & Hg).
+    repeat split; try assumption. apply Hg; tauto.
+  - (* ACKNACK *)
+    apply (Hres (step s OAckNack)); [|reflexivity]. cbn [step].
+    destruct (s_reply s) as [[a nfo]|] eqn:Er.
+    + apply respond_total; [exact Hpi|].
+      destruct (w_on_acknack_total (s_w s) (a_count a) (a_base a) (a_set a) Hf0) as (w' & ws & E).
+      exists w', ws. split; [exact E|]. apply w_on_acknack_spec in E; [|exact Hf]. exact E.
+    + apply respond_total; [exact Hpi|]. eexists; eexists. repeat split; constructor.
+Qed.
+
+Lemma pinv_init : forall rel nreaders f, frag_size_ok f -> pinv (s_init rel nreaders f).
+Proof.
+  intros rel nreaders f Hf. constructor.
+  - apply sinv_init. exact Hf.
+  - intros sn p H. discriminate.
+  - intros sn p H. discriminate.
+Qed.
+
+(* outside the known classes C05-fragsize-zero-div (no hand-made fragments) and
+   C05-nackfrag-bitmap-overflow (samples of at most 256 fragments) nothing panics, whatever the
+   history *)
+Theorem run_never_panics : forall rel nreaders f ops,
+  frag_size_ok f -> Forall op_ok ops -> Forall (small_op f) ops ->
+  exists s obs, run (s_init rel nreaders f) ops = Ok (s, obs).
+Proof.
+  intros rel nreaders f ops Hf Hok Hsm.
+  assert (G : forall ops s, pinv s -> w_f (s_w s) = f -> Forall op_ok ops -> Forall (small_op f) ops ->
+              exists s' obs, run s ops = Ok (s', obs)).
+  { clear. induction ops as [|o ops IH]; intros s Hp Hwf Hok Hsm; cbn [run]; [eexists; eexists; reflexivity|].
+    inversion Hok as [|? ? Ho1 Ho2]; subst. inversion Hsm as [|? ? Hs1 Hs2]; subst.
+    destruct (step_total s o Hp Ho1 Hs1) as (s1 & b & E & Hp1 & Hw1). rewrite E. cbn [bind fst snd].
+    destruct (IH s1 Hp1 Hw1 Ho2 Hs2) as (s2 & obs & E2). rewrite E2. cbn [bind fst snd].
+    eexists; eexists; reflexivity. }
+  apply G; [apply pinv_init; exact Hf|reflexivity|exact Hok|exact Hsm].
+Qed.
+
+(* ------------------------------------------------------------ the oracle decides the statement *)
+
+Lemma sorted_lt_trans : forall l a b, a < b -> StronglySorted Z.lt (b :: l) -> StronglySorted Z.lt (a :: l).
+Proof.
+  intros l a b Hab H. inversion H as [|? ? Hs Hall]; subst. constructor; [exact Hs|].
+  eapply Forall_impl; [|exact Hall]. intros x Hx. cbn beta in Hx. lia.
+Qed.
+
+Theorem identicalb_sound : forall ws ch prev,
+  identicalb ws prev ch = true <->
+  (StronglySorted Z.lt (prev :: map fst ch) /\
+   forall sn d, In (sn, d) ch -> nth_written ws sn = Some d).
+Proof.
+  intros ws ch. induction ch as [|[sn d] t IH]; intros prev; cbn [identicalb map fst].
+  - split; [intros _|reflexivity]. split; [repeat constructor|intros ? ? []].
+  - rewrite !andb_true_iff, IH, Z.ltb_lt. split.
+    + intros [[Hlt Hm] [Hs Hall]]. split.
+      * constructor; [exact Hs|]. constructor; [exact Hlt|].
+        inversion Hs as [|? ? _ Hf]; subst. eapply Forall_impl; [|exact Hf]. intros x Hx. cbn beta in Hx. lia.
+      * intros sn' d' [Heq|Hin]; [|apply Hall; exact Hin]. inversion Heq; subst.
+        destruct (nth_written ws sn') as [p|]; [|discriminate]. apply bytes_eqb_eq in Hm. congruence.
+    + intros [Hs Hall]. inversion Hs as [|? ? Hs' Hf]; subst. inversion Hf as [|? ? Hlt Hf']; subst.
+      split; [split; [exact Hlt|]|split; [exact Hs'|]].
+      * rewrite (Hall sn d (or_introl eq_refl)). apply bytes_eqb_eq. reflexivity.
+      * intros sn' d' Hin. apply Hall. right. exact Hin.
+Qed.
